@@ -327,15 +327,8 @@ func genHs(r *vh.Rand) string {
 		k.Cert = "r"
 	}
 	k.HasCache, k.CacheDis = false, false
-	// bfe's ECDHE key agreement implements P-256/384/521 only: a Config.CurvePreferences naming X25519 makes
-	// generateServerKeyExchange fail after readClientHello has accepted — outside C41's negotiation model
-	var cp []uint16
-	for _, c := range k.CurvePrefs {
-		if c != 29 {
-			cp = append(cp, c)
-		}
-	}
-	k.CurvePrefs = cp
+	// (server CurvePreferences may name X25519, which bfe's key agreement does not implement: readClientHello accepts
+	// and generateServerKeyExchange fails closed — the driver predicts that from keyExchangeCurve)
 	if !r.Chance(1, 6) {
 		// mostly sane version ranges
 		if k.Min != 0 && k.Max != 0 && k.Min > k.Max {
